@@ -326,19 +326,19 @@ theorem group_pending_eq_resolve (mode : GameMode) (g : List (TpLine F)) :
 /-! ### refinement -/
 
 /-- accepted lines, one after the other. -/
-def runLines (st : TimingPointsState F P) (ls : List (TpLine F)) : TimingPointsState F P :=
+def runTpLines (st : TimingPointsState F P) (ls : List (TpLine F)) : TimingPointsState F P :=
   ls.foldl applyTpLine st
 
-theorem runLines_general (st : TimingPointsState F P) (ls : List (TpLine F)) :
-    (runLines st ls).general = st.general := by
+theorem runTpLines_general (st : TimingPointsState F P) (ls : List (TpLine F)) :
+    (runTpLines st ls).general = st.general := by
   induction ls generalizing st with
   | nil => rfl
-  | cons l rest ih => rw [runLines, List.foldl_cons, ← runLines, ih, applyTpLine_general]
+  | cons l rest ih => rw [runTpLines, List.foldl_cons, ← runTpLines, ih, applyTpLine_general]
 
 /-- the state machine from an arbitrary state: the open group continues, later groups start empty. -/
-theorem runLines_finish (st : TimingPointsState F P) (ls : List (TpLine F))
+theorem runTpLines_finish (st : TimingPointsState F P) (ls : List (TpLine F))
     (hrefl : ∀ l ∈ ls, sameGroup l.time l.time = true) :
-    (runLines st ls).finish.2 =
+    (runTpLines st ls).finish.2 =
       (groupsFrom st.pendingTime ls).2.foldl (addGroup st.general.mode)
         (flushInto st.controlPoints ((groupsFrom st.pendingTime ls).1.foldl (stepPending st.general.mode) st.pending)) := by
   induction ls generalizing st with
@@ -347,7 +347,7 @@ theorem runLines_finish (st : TimingPointsState F P) (ls : List (TpLine F))
     have hl := hrefl l (List.mem_cons_self ..)
     have hrest : ∀ l' ∈ rest, sameGroup l'.time l'.time = true :=
       fun l' h' => hrefl l' (List.mem_cons_of_mem _ h')
-    rw [runLines, List.foldl_cons, ← runLines, ih _ hrest, applyTpLine_general, applyTpLine_eq st l hl,
+    rw [runTpLines, List.foldl_cons, ← runTpLines, ih _ hrest, applyTpLine_general, applyTpLine_eq st l hl,
       groupsFrom]
     cases hs : sameGroup l.time st.pendingTime
     · simp [addGroup, ← group_pending_eq_resolve]
@@ -362,8 +362,8 @@ timing-point lines). -/
 def acceptedLines (g : GeneralState F P) (strs : List Str) : List (TpLine F) :=
   strs.filterMap (fun s => (parseTpFields g s).toOption)
 
-theorem runStrs_eq_runLines (st : TimingPointsState F P) (strs : List Str) :
-    runStrs st strs = runLines st (acceptedLines st.general strs) := by
+theorem runStrs_eq_runTpLines (st : TimingPointsState F P) (strs : List Str) :
+    runStrs st strs = runTpLines st (acceptedLines st.general strs) := by
   induction strs generalizing st with
   | nil => rfl
   | cons s rest ih =>
@@ -371,7 +371,7 @@ theorem runStrs_eq_runLines (st : TimingPointsState F P) (strs : List Str) :
     unfold parseTimingPoints
     cases h : parseTpFields st.general s with
     | error e => simp [acceptedLines, List.filterMap_cons, h, Except.toOption]
-    | ok l => simp [acceptedLines, List.filterMap_cons, h, Except.toOption, runLines, applyTpLine_general]
+    | ok l => simp [acceptedLines, List.filterMap_cons, h, Except.toOption, runTpLines, applyTpLine_general]
 
 omit [Scalar P] in
 /-- **a rejected line leaves no trace** in the timing-point state (all `?` precede the first mutation). -/
@@ -390,7 +390,7 @@ theorem pending_eq_groups (st0 : TimingPointsState F P) (h0 : st0.pending = Pend
     (runStrs st0 strs).finish.2 =
       (groupsOf st0.pendingTime (acceptedLines st0.general strs)).foldl
         (addGroup st0.general.mode) st0.controlPoints := by
-  rw [runStrs_eq_runLines, runLines_finish _ _ hrefl, h0, group_pending_eq_resolve, groupsOf,
+  rw [runStrs_eq_runTpLines, runTpLines_finish _ _ hrefl, h0, group_pending_eq_resolve, groupsOf,
     List.foldl_cons]
   rfl
 
@@ -603,12 +603,12 @@ theorem inv_applyTpLine {Q : PointPred F} {st : TimingPointsState F P} (h : Inv 
   rw [g3]
   exact ⟨h4.sorted, h4.cp, h4.pd⟩
 
-theorem inv_runLines {Q : PointPred F} {st : TimingPointsState F P} (h : Inv Q st) (ls : List (TpLine F))
-    (hl : ∀ l ∈ ls, LineAll Q st.general.mode l) : Inv Q (runLines st ls) := by
+theorem inv_runTpLines {Q : PointPred F} {st : TimingPointsState F P} (h : Inv Q st) (ls : List (TpLine F))
+    (hl : ∀ l ∈ ls, LineAll Q st.general.mode l) : Inv Q (runTpLines st ls) := by
   induction ls generalizing st with
   | nil => exact h
   | cons l rest ih =>
-    rw [runLines, List.foldl_cons, ← runLines]
+    rw [runTpLines, List.foldl_cons, ← runTpLines]
     apply ih (inv_applyTpLine h l (hl l (List.mem_cons_self ..)))
     rw [applyTpLine_general]
     exact fun l' h' => hl l' (List.mem_cons_of_mem _ h')
@@ -637,8 +637,8 @@ theorem lists_strictly_sorted (st : TimingPointsState F P) (h : C13.Sorted st.co
   let Q : PointPred F := ⟨fun _ => True, fun _ => True, fun _ => True, fun _ => True⟩
   have hinv : Inv Q st := ⟨h, ⟨fun _ _ => trivial, fun _ _ => trivial, fun _ _ => trivial, fun _ _ => trivial⟩,
     ⟨fun _ _ => trivial, fun _ _ => trivial, fun _ _ => trivial, fun _ _ => trivial⟩⟩
-  rw [runStrs_eq_runLines]
-  exact (inv_finish (inv_runLines hinv _ (fun _ _ => ⟨fun _ => trivial, trivial, trivial, trivial⟩))).1
+  rw [runStrs_eq_runTpLines]
+  exact (inv_finish (inv_runTpLines hinv _ (fun _ _ => ⟨fun _ => trivial, trivial, trivial, trivial⟩))).1
 
 theorem lists_strictly_sorted_fresh (strs : List Str) :
     C13.Sorted (runStrs (TimingPointsState.create : TimingPointsState F P) strs).finish.2 :=
@@ -706,8 +706,8 @@ possibly after `[General]` lines: `inv_create`, `inv_parseGeneral`). -/
 theorem clamps (laws : TpClampLaws F) (st0 : TimingPointsState F P)
     (h0 : Inv (clampPred st0.general.mode) st0) (strs : List Str) :
     CpAll (clampPred st0.general.mode) (runStrs st0 strs).finish.2 := by
-  rw [runStrs_eq_runLines]
-  exact (inv_finish (inv_runLines h0 _ (fun l _ => line_clamped laws _ l))).2
+  rw [runStrs_eq_runTpLines]
+  exact (inv_finish (inv_runTpLines h0 _ (fun l _ => line_clamped laws _ l))).2
 
 /-- scroll speed stays `1` outside taiko / mania (needs no law). -/
 theorem scroll_one_outside_taiko_mania (mode : GameMode) (l : TpLine F)
@@ -746,7 +746,7 @@ example : (groupsOf (0 : Z) exLines).map (·.length) = [0, 4, 1, 1] := by decide
 and the *last* inherited line gives the others (slider velocity 100/25 = 4); the result is sorted by time
 although the group at 5 came last. -/
 example :
-    let cp := (runLines (TimingPointsState.create : TimingPointsState Z Z) exLines).finish.2
+    let cp := (runTpLines (TimingPointsState.create : TimingPointsState Z Z) exLines).finish.2
     cp.timingPoints.map (fun p => (p.time.v, p.beatLen.v)) = [(5, 400), (10, 500), (20, 300)] ∧
     cp.difficultyPoints.map (fun p => (p.time.v, p.sliderVelocity.v)) = [(10, 4), (20, 1)] := by
   decide
